@@ -35,6 +35,31 @@ struct Step {
     file: String,
     text: String,
     kind: String,
+    /// how the update reaches the project: "" / "get" = Project::get_source + Source::change (what the
+    /// language server does), "inline_abs" / "inline_rel" / "inline_dot" = Source::inline with the absolute
+    /// path, the path relative to the current directory, "./" + that; "file_abs" / "file_rel" = the text is
+    /// written to disk and read back by Source::from_latin1_file under that spelling; "libedit" = `file`
+    /// names a file of the std / ieee libraries (relative to /repo/vhdl_libraries) and `text` is appended
+    /// to its original contents (empty text = the original contents again)
+    via: String,
+}
+
+/// the editable files of the standard libraries (libedit steps)
+const LIB_FILES: [&str; 7] = [
+    "std/standard.vhd",
+    "std/textio.vhd",
+    "std/env.vhd",
+    "ieee2008/std_logic_1164.vhdl",
+    "ieee2008/std_logic_1164-body.vhdl",
+    "ieee2008/numeric_std.vhdl",
+    "ieee2008/numeric_std-body.vhdl",
+];
+
+fn lib_text(file: &str, suffix: &str) -> String {
+    let bytes = std::fs::read(Path::new(STD_DIR).join(file)).expect("read library file");
+    let mut t: String = bytes.iter().map(|b| *b as char).collect();
+    t.push_str(suffix);
+    t
 }
 
 #[derive(Clone, Debug)]
@@ -43,6 +68,8 @@ struct History {
     libraries: BTreeMap<String, Vec<String>>,
     initial: BTreeMap<String, String>,
     lints: bool,
+    /// ieee.numeric_std is part of the project also with the reduced standard libraries
+    numeric: bool,
     steps: Vec<Step>,
 }
 
@@ -60,10 +87,19 @@ impl History {
         m.insert("libraries".into(), json!(self.libraries));
         m.insert("initial".into(), json!(self.initial));
         m.insert("lints".into(), json!(self.lints));
+        if self.numeric {
+            m.insert("numeric_std".into(), json!(true));
+        }
         let steps: Vec<Value> = self
             .steps
             .iter()
-            .map(|s| json!({"file": s.file, "text": s.text, "kind": s.kind}))
+            .map(|s| {
+                if s.via.is_empty() {
+                    json!({"file": s.file, "text": s.text, "kind": s.kind})
+                } else {
+                    json!({"file": s.file, "text": s.text, "kind": s.kind, "via": s.via})
+                }
+            })
             .collect();
         m.insert("steps".into(), Value::Array(steps));
         m
@@ -103,6 +139,7 @@ impl History {
             }
         }
         let lints = obj.get("lints").and_then(|x| x.as_bool()).unwrap_or(true);
+        let numeric = obj.get("numeric_std").and_then(|x| x.as_bool()).unwrap_or(false);
         let mut steps = Vec::new();
         if let Some(st) = obj.get("steps").and_then(|x| x.as_array()) {
             for s in st {
@@ -111,7 +148,12 @@ impl History {
                     .and_then(|x| x.as_str())
                     .ok_or("step without file")?
                     .to_string();
-                if !simple_name(&file) {
+                let via = s.get("via").and_then(|x| x.as_str()).unwrap_or("").to_string();
+                if via == "libedit" {
+                    if !LIB_FILES.contains(&file.as_str()) {
+                        return Err(format!("not an editable library file: {file}"));
+                    }
+                } else if !simple_name(&file) {
                     return Err(format!("bad file name {file}"));
                 }
                 let text = s
@@ -124,7 +166,7 @@ impl History {
                     .and_then(|x| x.as_str())
                     .unwrap_or("replace")
                     .to_string();
-                steps.push(Step { file, text, kind });
+                steps.push(Step { file, text, kind, via });
             }
         }
         let h = History {
@@ -132,6 +174,7 @@ impl History {
             libraries,
             initial,
             lints,
+            numeric,
             steps,
         };
         for t in h.initial.values().chain(h.steps.iter().map(|s| &s.text)) {
@@ -169,7 +212,12 @@ fn config_text(h: &History, libs: LibsMode) -> String {
     if libs == LibsMode::Mini {
         s.push_str(&format!("std.files = ['{STD_DIR}/std/*.vhd']\nstd.is_third_party = true\n"));
         s.push_str(&format!(
-            "ieee.files = ['{STD_DIR}/ieee2008/std_logic_1164.vhdl', '{STD_DIR}/ieee2008/std_logic_1164-body.vhdl']\nieee.is_third_party = true\n"
+            "ieee.files = ['{STD_DIR}/ieee2008/std_logic_1164.vhdl', '{STD_DIR}/ieee2008/std_logic_1164-body.vhdl'{}]\nieee.is_third_party = true\n",
+            if h.numeric {
+                format!(", '{STD_DIR}/ieee2008/numeric_std.vhdl', '{STD_DIR}/ieee2008/numeric_std-body.vhdl'")
+            } else {
+                String::new()
+            }
         ));
     }
     for (lib, files) in &h.libraries {
@@ -400,6 +448,7 @@ fn run_history(h: &History, libs: LibsMode, wdir: &Path, stop_at_first: bool) ->
         cur.insert(f.clone(), t);
     }
     let mut unmapped: Vec<String> = Vec::new();
+    let mut lib_edits: BTreeMap<String, String> = BTreeMap::new();
     let mut res = RunResult {
         verdict: "ok".into(),
         bad_step: None,
@@ -420,13 +469,42 @@ fn run_history(h: &History, libs: LibsMode, wdir: &Path, stop_at_first: bool) ->
             } else {
                 let st = &h.steps[k - 1];
                 let p = inc.as_mut().unwrap();
-                let path = inc_dir.join(&st.file);
-                match p.get_source(&path) {
-                    Some(src) => {
-                        src.change(None, &st.text);
-                        p.update_source(&src);
+                if st.via == "libedit" {
+                    let path = Path::new(STD_DIR).join(&st.file);
+                    let src = p.get_source(&path).expect("library file is part of the project");
+                    src.change(None, &lib_text(&st.file, &st.text));
+                    p.update_source(&src);
+                } else {
+                    let path = inc_dir.join(&st.file);
+                    // the same file spelled relative to the current directory (set to the output directory)
+                    let rel = std::env::current_dir()
+                        .ok()
+                        .and_then(|cwd| path.strip_prefix(&cwd).ok().map(|r| r.to_path_buf()));
+                    let spelled = |how: &str| -> PathBuf {
+                        match (how, &rel) {
+                            ("rel", Some(r)) => r.clone(),
+                            ("dot", Some(r)) => Path::new(".").join(r),
+                            _ => path.clone(),
+                        }
+                    };
+                    match st.via.as_str() {
+                        "inline_abs" => p.update_source(&Source::inline(&spelled("abs"), &st.text)),
+                        "inline_rel" => p.update_source(&Source::inline(&spelled("rel"), &st.text)),
+                        "inline_dot" => p.update_source(&Source::inline(&spelled("dot"), &st.text)),
+                        "file_abs" | "file_rel" => {
+                            std::fs::write(&path, &st.text).expect("write updated file");
+                            let sp = spelled(if st.via == "file_rel" { "rel" } else { "abs" });
+                            let src = Source::from_latin1_file(&sp).expect("read updated file");
+                            p.update_source(&src);
+                        }
+                        _ => match p.get_source(&path) {
+                            Some(src) => {
+                                src.change(None, &st.text);
+                                p.update_source(&src);
+                            }
+                            None => p.update_source(&Source::inline(&path, &st.text)),
+                        },
                     }
-                    None => p.update_source(&Source::inline(&path, &st.text)),
                 }
             }
             let p = inc.as_mut().unwrap();
@@ -434,11 +512,15 @@ fn run_history(h: &History, libs: LibsMode, wdir: &Path, stop_at_first: bool) ->
         }));
         if k > 0 {
             let st = &h.steps[k - 1];
-            if !mapped.contains(&st.file) && !unmapped.contains(&st.file) {
-                unmapped.push(st.file.clone());
-                res.stats.unmapped = true;
+            if st.via == "libedit" {
+                lib_edits.insert(st.file.clone(), st.text.clone());
+            } else {
+                if !mapped.contains(&st.file) && !unmapped.contains(&st.file) {
+                    unmapped.push(st.file.clone());
+                    res.stats.unmapped = true;
+                }
+                cur.insert(st.file.clone(), st.text.clone());
             }
-            cur.insert(st.file.clone(), st.text.clone());
         }
         let inc_diags = match inc_result {
             Ok(d) => d,
@@ -486,6 +568,11 @@ fn run_history(h: &History, libs: LibsMode, wdir: &Path, stop_at_first: bool) ->
             let mut q = mk_project(&fresh_dir, &toml, libs, h.lints);
             for f in &unmapped {
                 q.update_source(&Source::inline(&fresh_dir.join(f), &cur[f]));
+            }
+            for (f, suffix) in &lib_edits {
+                let src = q.get_source(&Path::new(STD_DIR).join(f)).expect("library file is part of the project");
+                src.change(None, &lib_text(f, suffix));
+                q.update_source(&src);
             }
             let d = q.analyse();
             observe(&q, &d, &fresh_dir, &all_files)
@@ -1101,9 +1188,9 @@ fn scenario_steps(
     while steps.len() < n {
         if is_present {
             if !first && alt.is_some() && rng.chance(1, 4) {
-                steps.push(Step { file: file.into(), text: alt.clone().unwrap(), kind: "replace".into() });
+                steps.push(Step { file: file.into(), text: alt.clone().unwrap(), kind: "replace".into(), via: String::new() });
             } else {
-                steps.push(Step { file: file.into(), text: String::new(), kind: "empty".into() });
+                steps.push(Step { file: file.into(), text: String::new(), kind: "empty".into(), via: String::new() });
                 is_present = false;
             }
         } else {
@@ -1111,6 +1198,7 @@ fn scenario_steps(
                 file: file.into(),
                 text: present.into(),
                 kind: if first { "replace".into() } else { "restore".into() },
+                via: String::new(),
             });
             is_present = true;
         }
@@ -1238,19 +1326,19 @@ fn gen_scenario(rng: &mut Rng, id: String, max_steps: usize) -> History {
                 initial.insert("y.vhd".into(), t.clone());
             } else {
                 initial.insert("y.vhd".into(), if rng.chance(1, 2) { String::new() } else { "package yy is\nend package;\n".into() });
-                st.push(Step { file: "y.vhd".into(), text: t.clone(), kind: "replace".into() });
+                st.push(Step { file: "y.vhd".into(), text: t.clone(), kind: "replace".into(), via: String::new() });
             }
             let (first, second) = if rng.chance(2, 3) { ("x.vhd", "y.vhd") } else { ("y.vhd", "x.vhd") };
-            st.push(Step { file: first.into(), text: String::new(), kind: "empty".into() });
-            st.push(Step { file: first.into(), text: t.clone(), kind: "restore".into() });
-            st.push(Step { file: second.into(), text: String::new(), kind: "empty".into() });
-            st.push(Step { file: second.into(), text: t.clone(), kind: "restore".into() });
-            st.push(Step { file: first.into(), text: String::new(), kind: "empty".into() });
+            st.push(Step { file: first.into(), text: String::new(), kind: "empty".into(), via: String::new() });
+            st.push(Step { file: first.into(), text: t.clone(), kind: "restore".into(), via: String::new() });
+            st.push(Step { file: second.into(), text: String::new(), kind: "empty".into(), via: String::new() });
+            st.push(Step { file: second.into(), text: t.clone(), kind: "restore".into(), via: String::new() });
+            st.push(Step { file: first.into(), text: String::new(), kind: "empty".into(), via: String::new() });
             st.truncate(std::cmp::max(2, std::cmp::min(max_steps, 2 + rng.below(5))));
             steps = st;
         }
     }
-    History { id, libraries, initial, lints, steps }
+    History { id, libraries, initial, lints, numeric: false, steps }
 }
 
 
@@ -1309,9 +1397,9 @@ fn gen_scenario2(rng: &mut Rng, id: String, max_steps: usize) -> History {
             let i = if present[0] && present[1] { rng.below(2) } else if present[0] { 0 } else if present[1] { 1 } else { rng.below(2) };
             let (f, t) = if i == 0 { ("p1.vhd", &t1) } else { ("p2.vhd", &t2) };
             if present[i] {
-                steps.push(Step { file: f.into(), text: String::new(), kind: "empty".into() });
+                steps.push(Step { file: f.into(), text: String::new(), kind: "empty".into(), via: String::new() });
             } else {
-                steps.push(Step { file: f.into(), text: t.clone(), kind: if seen[i] { "restore".into() } else { "replace".into() } });
+                steps.push(Step { file: f.into(), text: t.clone(), kind: if seen[i] { "restore".into() } else { "replace".into() }, via: String::new() });
                 seen[i] = true;
             }
             present[i] = !present[i];
@@ -1346,38 +1434,109 @@ fn gen_scenario2(rng: &mut Rng, id: String, max_steps: usize) -> History {
                         _ => "package filler is\nend package;\n\n".to_string(),
                     };
                     cur_a = if cur_a.is_empty() { a0.to_string() } else { format!("{pre}{cur_a}") };
-                    steps.push(Step { file: "a.vhd".into(), text: cur_a.clone(), kind: "shift".into() });
+                    steps.push(Step { file: "a.vhd".into(), text: cur_a.clone(), kind: "shift".into(), via: String::new() });
                 }
                 5 => {
                     cur_e = format!("-- moved\n{cur_e}");
-                    steps.push(Step { file: "e.vhd".into(), text: cur_e.clone(), kind: "shift".into() });
+                    steps.push(Step { file: "e.vhd".into(), text: cur_e.clone(), kind: "shift".into(), via: String::new() });
                 }
                 6 | 7 => {
                     cur_a = if cur_a.contains("signal m") { a0.to_string() } else { a1.to_string() };
-                    steps.push(Step { file: "a.vhd".into(), text: cur_a.clone(), kind: "replace".into() });
+                    steps.push(Step { file: "a.vhd".into(), text: cur_a.clone(), kind: "replace".into(), via: String::new() });
                 }
                 _ => {
                     if cur_a.is_empty() {
                         cur_a = a0.to_string();
-                        steps.push(Step { file: "a.vhd".into(), text: cur_a.clone(), kind: "restore".into() });
+                        steps.push(Step { file: "a.vhd".into(), text: cur_a.clone(), kind: "restore".into(), via: String::new() });
                     } else {
                         cur_a = String::new();
-                        steps.push(Step { file: "a.vhd".into(), text: String::new(), kind: "empty".into() });
+                        steps.push(Step { file: "a.vhd".into(), text: String::new(), kind: "empty".into(), via: String::new() });
                     }
                 }
             }
         }
     }
-    History { id, libraries, initial, lints, steps }
+    History { id, libraries, initial, lints, numeric: false, steps }
 }
 
 
-fn gen_history(rng: &mut Rng, id: String, max_steps: usize) -> History {
-    if rng.chance(1, 3) {
-        if rng.chance(2, 5) {
-            return gen_scenario2(rng, id, max_steps);
+// Worlds whose standard-library files are edited (comment appended / original restored) while user
+// units depend on the entities the analyser special-cases: matching operators on arrays of
+// std_ulogic, BOOLEAN / BIT / TIME / STRING, 'image, to_string, textio, env, numeric_std.
+const USER_MATCHING: &str = "library ieee;\nuse ieee.std_logic_1164.all;\npackage mu is\n  type nibble_t is array (3 downto 0) of std_ulogic;\n  function eq(x, y : nibble_t) return std_ulogic;\n  function ne(x, y : nibble_t) return std_ulogic;\nend package;\n\npackage body mu is\n  function eq(x, y : nibble_t) return std_ulogic is\n  begin\n    return x ?= y;\n  end function;\n  function ne(x, y : nibble_t) return std_ulogic is\n  begin\n    return x ?/= y;\n  end function;\nend package body;\n";
+const USER_TEXTIO: &str = "use std.textio.all;\nuse std.env.all;\npackage tu is\n  constant t0 : time := 1 ns;\n  constant b0 : boolean := (1 < 2) and true;\n  constant s0 : string := integer'image(3) & to_string(5) & time'image(t0);\n  constant n0 : natural := s0'length;\n  procedure say(x : in integer);\nend package;\n\npackage body tu is\n  procedure say(x : in integer) is\n    variable l : line;\n  begin\n    write(l, string'(\"x = \"));\n    write(l, x);\n    writeline(output, l);\n    if x > 3 then\n      stop(0);\n    end if;\n  end procedure;\nend package body;\n";
+const USER_NUMERIC: &str = "library ieee;\nuse ieee.std_logic_1164.all;\nuse ieee.numeric_std.all;\nentity cnt is\n  port (clk : in std_logic; rst : in std_logic; q : out std_logic_vector(3 downto 0));\nend entity;\n\narchitecture rtl of cnt is\n  signal c : unsigned(3 downto 0) := (others => '0');\n  signal z : std_ulogic;\nbegin\n  process (clk)\n  begin\n    if rising_edge(clk) then\n      if rst = '1' then\n        c <= (others => '0');\n      else\n        c <= c + 1;\n      end if;\n    end if;\n  end process;\n  z <= c ?= to_unsigned(3, 4);\n  q <= std_logic_vector(c) when to_x01(z) = '1' else (others => 'Z');\nend architecture;\n";
+
+fn gen_scenario3(rng: &mut Rng, id: String, max_steps: usize) -> History {
+    let mut libraries: BTreeMap<String, Vec<String>> = BTreeMap::new();
+    let mut initial: BTreeMap<String, String> = BTreeMap::new();
+    libraries.insert("lib_a".into(), vec!["m.vhd".into(), "t.vhd".into(), "n.vhd".into()]);
+    initial.insert("m.vhd".into(), USER_MATCHING.into());
+    initial.insert("t.vhd".into(), USER_TEXTIO.into());
+    initial.insert("n.vhd".into(), USER_NUMERIC.into());
+    let users = [("m.vhd", USER_MATCHING), ("t.vhd", USER_TEXTIO), ("n.vhd", USER_NUMERIC)];
+    let mut cur: BTreeMap<String, String> = initial.clone();
+    let mut edited: BTreeSet<String> = BTreeSet::new();
+    let mut steps: Vec<Step> = Vec::new();
+    let n = std::cmp::max(1, std::cmp::min(max_steps, 2 + rng.below(4)));
+    while steps.len() < n {
+        if rng.chance(3, 5) {
+            // std_logic_1164 most often: its id is remembered by the design root
+            let f = if rng.chance(2, 5) { "ieee2008/std_logic_1164.vhdl" } else { *rng.pick(&LIB_FILES) };
+            let revert = edited.contains(f) && rng.chance(1, 2);
+            let text = if revert { String::new() } else { format!("\n-- edited {}\n", steps.len()) };
+            if revert {
+                edited.remove(f);
+            } else {
+                edited.insert(f.to_string());
+            }
+            steps.push(Step { file: f.into(), text, kind: if revert { "restore".into() } else { "shift".into() }, via: "libedit".into() });
+        } else {
+            let (f, orig) = *rng.pick(&users);
+            let t = match rng.below(3) {
+                0 => format!("-- shifted\n{}", cur[f]),
+                1 => String::new(),
+                _ => orig.to_string(),
+            };
+            let kind = if t.is_empty() { "empty" } else if t == orig { "restore" } else { "shift" };
+            cur.insert(f.to_string(), t.clone());
+            steps.push(Step { file: f.into(), text: t, kind: kind.into(), via: String::new() });
         }
-        return gen_scenario(rng, id, max_steps);
+    }
+    History { id, libraries, initial, lints: rng.chance(9, 10), numeric: true, steps }
+}
+
+/// how the updates reach the project: a quarter of the steps use another way than get_source + change
+fn decorate(rng: &mut Rng, mut h: History) -> History {
+    const VIAS: [&str; 5] = ["inline_abs", "inline_rel", "inline_dot", "file_abs", "file_rel"];
+    for st in h.steps.iter_mut() {
+        if st.via.is_empty() && rng.chance(1, 4) {
+            st.via = rng.pick(&VIAS).to_string();
+        }
+    }
+    // now and then a file of the standard libraries is touched in an ordinary history
+    if rng.chance(1, 12) && !h.steps.is_empty() {
+        let at = rng.below(h.steps.len() + 1);
+        let f = if h.numeric { *rng.pick(&LIB_FILES) } else { LIB_FILES[rng.below(5)] };
+        h.steps.insert(at, Step { file: f.into(), text: "\n-- touched\n".into(), kind: "shift".into(), via: "libedit".into() });
+    }
+    h
+}
+
+fn gen_history(rng: &mut Rng, id: String, max_steps: usize) -> History {
+    let h = gen_history0(rng, id, max_steps);
+    let mut h = decorate(rng, h);
+    h.steps.truncate(std::cmp::max(1, max_steps));
+    h
+}
+
+fn gen_history0(rng: &mut Rng, id: String, max_steps: usize) -> History {
+    if rng.chance(3, 8) {
+        return match rng.below(8) {
+            0 | 1 | 2 => gen_scenario2(rng, id, max_steps),
+            3 => gen_scenario3(rng, id, max_steps),
+            _ => gen_scenario(rng, id, max_steps),
+        };
     }
     let mut libs: Vec<String> = vec!["lib_a".into(), "lib_b".into()];
     if rng.chance(1, 4) {
@@ -1472,6 +1631,7 @@ fn gen_history(rng: &mut Rng, id: String, max_steps: usize) -> History {
                 file: file.to_string(),
                 text,
                 kind: kind.to_string(),
+                via: String::new(),
             });
         };
         if r >= 92 {
@@ -1594,6 +1754,7 @@ fn gen_history(rng: &mut Rng, id: String, max_steps: usize) -> History {
         libraries,
         initial,
         lints,
+        numeric: false,
         steps,
     }
 }
@@ -1630,6 +1791,9 @@ fn process(h: &History, libs: LibsMode, wdir: &Path) -> (String, RunResult) {
 
 fn run_all(histories: Vec<History>, outdir: &Path, threads: usize, libs: LibsMode) {
     std::fs::create_dir_all(outdir).expect("create outdir");
+    // relative spellings of the project files are relative to the output directory
+    let outdir = &std::fs::canonicalize(outdir).expect("canonical outdir");
+    std::env::set_current_dir(outdir).expect("chdir to outdir");
     let t0 = Instant::now();
     let threads = std::cmp::max(1, std::cmp::min(threads, std::cmp::max(1, histories.len())));
     let histories = std::sync::Arc::new(histories);
@@ -1809,6 +1973,7 @@ fn main() {
                     libraries: [("lib_a".to_string(), vec!["a0.vhd".to_string()]), ("lib_b".to_string(), vec![])].into_iter().collect(),
                     initial: BTreeMap::new(),
                     lints: true,
+                    numeric: false,
                     steps: vec![],
                 };
                 let mut p = mk_project(&dir, &config_text(&h, LibsMode::Mini), LibsMode::Mini, true);
@@ -1836,6 +2001,7 @@ fn main() {
                 libraries: [("lib_a".to_string(), vec!["a0.vhd".to_string()])].into_iter().collect(),
                 initial: BTreeMap::new(),
                 lints: true,
+                numeric: false,
                 steps: vec![],
             };
             for libs in [LibsMode::Mini, LibsMode::Full] {
